@@ -668,6 +668,13 @@ func (env *CEnv) call(n *Node) cval {
 	case "elem":
 		// elem(slice, i)
 		v := env.eval(n.Kids[0])
+		if ref, ok := v.V.(*Term); ok && ref.S == SInt && v.T != nil {
+			// opaque slice of composites: element i as a value
+			if sl, ok := v.T.Underlying().(*types.Slice); ok {
+				loc := &LocV{Base: ref, Path: "elem!" + typeTag(sl.Elem()), Idx: []*Term{env.term(n.Kids[1])}, T: sl.Elem()}
+				return cval{V: env.ex.loadLoc(env.scratchState(), loc), T: sl.Elem()}
+			}
+		}
 		xs := env.ex.symSliceArg(env.scratchState(), v.V)
 		if xs == nil {
 			cfail("elem of %s", showValue(v.V))
